@@ -85,6 +85,14 @@ macro_rules! range_harnesses {
                 assert!(n1 == na, "C06: number of emitted+held-back words differs from interval spec");
                 assert!(l1 == la, "C06: lower/emitted words differ from interval spec");
                 assert!(inv_ok(&st1, &sit1), "C06: range encoder representation invariant lost");
+                // format-independent requirement of any decodable range coder (lemma_nested): the new interval lies
+                // inside the old one (compared at the new resolution); violated e.g. when held-back words are lost
+                let r0 = st.range().get() as u128; let r1 = st1.range().get() as u128;
+                assert!(n1 >= n0 && n1 <= n0 + 1, "C02/C11/C12: a step must emit or hold back zero or one further word");
+                if n1 >= n0 && n1 <= n0 + 1 {
+                    let sh = WB * (n1 - n0) as u32;
+                    assert!((l0 << sh) <= l1 && l1 + r1 <= ((l0 + r0) << sh), "C02/C11: interval after the step is not nested in the interval before the step");
+                }
                 cover!(renorm, "renormalisation");
                 cover!(matches!(sit, EncoderSituation::Normal) && matches!(sit1, EncoderSituation::Inverted(..)), "normal -> inverted");
                 cover!(matches!(sit, EncoderSituation::Inverted(..)) && matches!(sit1, EncoderSituation::Normal) && sink.n > 0, "inverted -> normal");
@@ -191,6 +199,23 @@ macro_rules! range_harnesses {
                 assert!(nwords == sink.n, "C18: num_words differs from the number of words sealing writes");
                 let nseal = sink.n - npend;
                 assert!(nseal >= 1 && nseal <= 2, "C12/C11: seal must add one or two words");
+                // C06: the documented sealing rule, as an independent reference: pending words resolved by the carry of
+                // point = lower + 2^(sb-wb) - 1; then the top word of point; then one zero word iff the top word of
+                // lower + range (exclusive end) equals it
+                {
+                    let point = st.lower().wrapping_add(((1 as S) << (SB - WB)) - 1);
+                    let carry = point < st.lower();
+                    let mut exp = [0 as W; 8]; let mut k = 0;
+                    if let EncoderSituation::Inverted(n, first) = sit {
+                        exp[0] = if carry { first + 1 } else { first }; k = 1;
+                        while k < n.get() { exp[k] = if carry { 0 } else { W::MAX }; k += 1; }
+                    }
+                    let pw = (point >> (SB - WB)) as W;
+                    exp[k] = pw; k += 1;
+                    if (st.lower().wrapping_add(st.range().get()) >> (SB - WB)) as W == pw { exp[k] = 0; k += 1; }
+                    assert!(sink.n == k, "C06: number of sealed words differs from the documented sealing rule");
+                    let mut i = 0; while i < k && i < sink.n { assert!(sink.buf[i] == exp[i], "C06: sealed words differ from the documented sealing rule"); i += 1; }
+                }
                 let mut buf = sink.buf;
                 // arbitrary continuation after the sealed words
                 let mut i = sink.n; while i < 8 { buf[i] = any(); i += 1; }
@@ -201,6 +226,17 @@ macro_rules! range_harnesses {
                     assert!(l <= x && x < l + st.range().get() as u128, "C11/C02: one seal word followed by a suffix leaves the encoder's interval");
                 } else {
                     assert!(l <= x && x < l + st.range().get() as u128, "C11/C02: two seal words followed by a suffix leave the encoder's interval");
+                }
+                // C02/C18 (end of stream): the decoder that has consumed exactly this message - same (lower, range) as the
+                // encoder (coupling), window = the sealed words after the pending ones, zero padded, backend exhausted -
+                // must report maybe_exhausted
+                {
+                    let mut x0: u128 = 0; let mut i = npend; while i < npend + NW { x0 = (x0 << WB) | (if i < sink.n { sink.buf[i] as u128 } else { 0 }); i += 1; }
+                    let mut end = Sink::default(); end.pos = 0; end.n = 0;
+                    match Dec::from_raw_parts(end, st, x0 as S) {
+                        Ok(d) => assert!(d.maybe_exhausted(), "C02/C18: decoder at the end of a sealed stream must report maybe_exhausted"),
+                        Err(_) => assert!(false, "C02/C11: sealed words (zero padded) leave the encoder's interval"),
+                    }
                 }
                 cover!(nseal == 2, "two seal words");
                 cover!(npend == 2, "sealed while two words were held back");
@@ -336,9 +372,9 @@ pub fn guard_u8_u16() {
         let mut i = 0; while i < twin.len() { assert!(g[i] == twin[i], "C08: range encoder view differs from what finishing the encoder would return"); i += 1; }
     }
     let (b, st1, sit1) = enc.into_raw_parts();
-    assert!(st1 == st && sit1 == sit, "C08: dropping the view changed the range encoder's state or situation");
-    assert!(b.len() == npre, "C08: dropping the view did not remove exactly the seal words");
-    let mut i = 0; while i < npre { assert!(b[i] == pre[i], "C08: dropping the view changed the words written so far"); i += 1; }
+    assert!(st1 == st && sit1 == sit, "C08/C02: dropping the view changed the range encoder's state or situation");
+    assert!(b.len() == npre, "C08/C02: dropping the view did not remove exactly the seal words");
+    let mut i = 0; while i < npre { assert!(b[i] == pre[i], "C08/C02: dropping the view changed the words written so far"); i += 1; }
     cover!(matches!(sit, EncoderSituation::Inverted(..)), "inspected while words are held back");
 }
 
